@@ -173,7 +173,7 @@ def parse_set(txt):
 
 
 def main(tier):
-    run = vlib.Run("C19", "model_checking", tier)
+    run = vlib.Run("C19", "exploration", tier)
     vlib.build_harness()
     wd = vlib.spec_scratch(["c19", "crypto"])
     try:
